@@ -720,11 +720,11 @@ impl Scenario for Hist {
                 simcore::hashseed::set(0xC24); // fixed hash keys: the result must not depend on them
                 let _ = tx.send(Sut::from_db(db).query(&sql));
             });
-            let out = match rx.recv_timeout(std::time::Duration::from_secs(20)) {
+            let out = match rx.recv_timeout(std::time::Duration::from_secs(120)) {
                 Ok(o) => o,
                 Err(_) => {
                     cx.eval("c24.returns");
-                    return cx.violation("c24.hang", format!("statement did not return within 20 s: {}", op.sql));
+                    return cx.violation("c24.hang", format!("statement did not return within 120 s: {}", op.sql));
                 }
             };
             cx.log.str(out.class());
